@@ -551,7 +551,9 @@ func (res *CheckResult) checkSource(source parser.Source) {
 				variableLiterals = append(variableLiterals, *allotment)
 				res.checkExpression(allotment, TypePortion)
 			case *parser.RatioLiteral:
-				sum.Add(sum, allotment.ToRatio())
+				if !res.checkZeroDenominator(allotment) {
+					sum.Add(sum, allotment.ToRatio())
+				}
 			case *parser.RemainingAllotment:
 				if isLast {
 					remainingAllotment = allotment
@@ -604,7 +606,9 @@ func (res *CheckResult) checkDestination(destination parser.Destination) {
 				variableLiterals = append(variableLiterals, *allotment)
 				res.checkExpression(allotment, TypePortion)
 			case *parser.RatioLiteral:
-				sum.Add(sum, allotment.ToRatio())
+				if !res.checkZeroDenominator(allotment) {
+					sum.Add(sum, allotment.ToRatio())
+				}
 			case *parser.RemainingAllotment:
 				if isLast {
 					remainingAllotment = allotment
@@ -621,6 +625,18 @@ func (res *CheckResult) checkDestination(destination parser.Destination) {
 
 		res.checkHasBadAllotmentSum(*sum, destination.Range, remainingAllotment, variableLiterals)
 	}
+}
+
+// Reports a portion literal whose denominator is zero (and tells whether it is the case)
+func (res *CheckResult) checkZeroDenominator(lit *parser.RatioLiteral) bool {
+	if lit.Denominator == nil || lit.Denominator.Sign() != 0 {
+		return false
+	}
+	res.Diagnostics = append(res.Diagnostics, Diagnostic{
+		Range: lit.Range,
+		Kind:  &ZeroDenominator{},
+	})
+	return true
 }
 
 func (res *CheckResult) checkKeptOrDestination(target parser.KeptOrDestination) {
